@@ -451,7 +451,10 @@ impl<'a> Sem<'a> {
                 _ => self.walk(q, i + 1, cur, rctx, scope, out),
             },
             Part::Filter(cnf) => {
-                let prev = if i > 0 { Some(&q[i - 1]) } else { None };
+                // [pin] the parser inserts `[*]` between a variable head and the next part, so a filter
+                // written directly after `%v` behaves as a filter after `[*]`
+                let all = Part::All;
+                let prev = if i > 0 { Some(if matches!(q[i - 1], Part::Var(_)) { &all } else { &q[i - 1] }) } else { None };
                 let after_wild = matches!(prev, Some(Part::Star) | Some(Part::All));
                 match cur {
                     V::List(l) => {
